@@ -494,6 +494,17 @@ pub fn value_for(leaf: &Leaf, want_true: bool, variant: u8) -> DocVal {
                     }
                 }
             };
+            // under str() a number or boolean whose text matches is as good as the string
+            if leaf.modifier == KMod::Str && variant % 3 == 0 {
+                if let DocVal::Str(t) = &s {
+                    if let Ok(i) = t.parse::<i64>() {
+                        return if i >= 0 && variant % 2 == 0 { DocVal::UInt(i as u64) } else { DocVal::Int(i) };
+                    }
+                    if t == "true" || t == "false" {
+                        return DocVal::Bool(t == "true");
+                    }
+                }
+            }
             // string predicates also look inside arrays (quantified lists on array fields are
             // not judged, so they get scalars)
             let quantified = matches!(leaf.modifier, KMod::All | KMod::Of(_));
